@@ -39,21 +39,30 @@ def seed() -> int:
         return 0
 
 
+_CLEARERS = {"modules": -1, "found": []}
+
+
 def reset_process_caches():
     """Return the process-wide caches that could make one case depend on an earlier one to their cold state."""
     import linecache
     import typing
 
-    # every functools cache living at module level of the library (found by scanning, so a renamed or added cache is reset too)
-    for name, mod in list(sys.modules.items()):
-        if name == "adaptix" or name.startswith("adaptix."):
-            for obj in list(vars(mod).values()):
-                clear = getattr(obj, "cache_clear", None)
-                if callable(clear) and not isinstance(obj, type):
-                    try:
-                        clear()
-                    except Exception:  # noqa: BLE001, S110
-                        pass
+    # every functools cache living at module level of the library (found by scanning, so a renamed or added cache is reset too;
+    # the scan is repeated only when new modules were imported)
+    if _CLEARERS["modules"] != len(sys.modules):
+        found = []
+        for name, mod in list(sys.modules.items()):
+            if name == "adaptix" or name.startswith("adaptix."):
+                for obj in list(vars(mod).values()):
+                    clear = getattr(obj, "cache_clear", None)
+                    if callable(clear) and not isinstance(obj, type):
+                        found.append(clear)
+        _CLEARERS["modules"], _CLEARERS["found"] = len(sys.modules), found
+    for clear in _CLEARERS["found"]:
+        try:
+            clear()
+        except Exception:  # noqa: BLE001, S110
+            pass
     for cleanup in getattr(typing, "_cleanups", ()):
         cleanup()
     try:
